@@ -48,19 +48,32 @@ def run(tier, seed, replay=None):
         if rc != 0:
             ck.aborts.append({"what": "harness exited %d: %s" % (rc, err[-300:]), "lines": []})
         ck.feed("random(n=%d)" % n, out)
+
+    def go_restart(n, sd):
+        rc, out, err = vlib.run_harness(exe, ["restart", n], env={"VERIF_SEED": str(sd)}, timeout=3000)
+        if rc != 0:
+            ck.aborts.append({"what": "harness (restart scenarios) exited %d: %s" % (rc, err[-300:]), "lines": []})
+        ck.feed("restart(n=%d)" % n, out)
     go(100 if tier == "quick" else 3000, seed)
+    go_restart(300 if tier == "quick" else 6000, seed)
     if ((not ob["ok"]) or ck.disagree) and not ck.propfail and tier == "quick":
         ck.notes.append("obligation or correspondence broken: widened search")
         go(500, seed + 1000)
+        go_restart(800, seed + 1000)
     return ck.finish(
         ob,
         rule="each case = one complete run of 1..4 real processes (ProgObserver + QMThread, stub job execution) on a job file of 1..8 jobs, cache 1..3; the parent "
              "chooses at random which process advances at every hook point (lock request, lock held, merged, back-up written, about to write, each record "
              "written, about to release, job execution); one run in three kills a random process at a random hook point (also in the middle of writing the "
              "back-up or the job file) and records whether file and back-up parse there. the interleaving is replayed on the model; clauses are judged on "
-             "the trace, the crash record and the final job file",
+             "the trace, the crash record and the final job file. restart scenarios: 1..3 processes on a job file with a HISTORY (jobs AVAILABLE, COMPLETE by "
+             "two earlier hosts with their outputs, FAILED with an error text, ASSIGNED by a dead host), each process with its own restart pattern (none, "
+             "host(...), stat(FAILED), both), cache 1..3 and maxjobs (unlimited or 1..3), a stub calculator that fails deterministically for some (process, job) "
+             "pairs; judged: every executed job carries in the final file exactly what its last executor reported and every other job its historical record, "
+             "jobs are (re)started only when AVAILABLE or named by the executor's pattern, maxjobs respected, nothing lost",
         assumptions=["fcntl lock semantics (released when the holder dies) are assumed as observed; a process blocked in the kernel lock is detected by a 2-50 ms silence",
-                     "maxjobs and restart patterns are not modelled or exercised (stated in DESIGN.md): the restart clause is not claimed",
+                     "restart scenarios run without crash injection; the whole-run behaviour with restart patterns is tied by replay on the second model (Votca.C10R), "
+                     "whose theorems are step-level (merge, start test, assignment loop, report); the invariant proofs are about the fresh-file protocol",
                      "crash transitions are outside the theorems (assigned_once is proved for crash-free interleavings); crash runs are judged by the trace predicates",
                      "a crash while the job file itself is written leaves it torn; survivors that load it fail with a parse error instead of falling back to the back-up (allowed by the property, recorded in DESIGN.md)"],
         trivial_tags=())
